@@ -521,9 +521,10 @@ func loModule(L *LState) int {
 	return 1
 }
 
-var loopdetection = &LUserData{}
-
 func loRequire(L *LState) int {
+	// the marker is reachable from Lua through package.loaded, so every state
+	// has one of its own
+	loopdetection := L.G.loading
 	name := L.CheckString(1)
 	loaded := L.GetField(L.Get(RegistryIndex), "_LOADED")
 	lv := L.GetField(loaded, name)
